@@ -53,10 +53,19 @@ RULE = ("case idx -> (a) the idx-th labelled DAG of the exhaustive enumeration o
         "every pair (thorough: each 5-node DAG is judged in 4 of the 8 hash-seed cells, everything else in all "
         "cells); (b) random discrete BNs on 3-6 (thorough 3-7) string-named nodes, cards 1-3, state names "
         "id/1-based/permuted ints/strings/mixed, exact zeros in half of the networks, 0-2 latents: do-sets of size 1-3 "
-        "(single, random pair, parent-child, ancestor-descendant, triple) -> do() surgery in both inplace modes and "
+        "(single, random pair, parent-child, ancestor-descendant, triple; do-variables with a single state occur) -> do() surgery in both inplace modes and "
         "several argument forms, DAG.do, query with the default adjustment for 1-3 query sets disjoint from do and "
         "its parents under 've' and 'bp', for single do every back-door-valid observed adjustment set (oracle "
-        "enumerated) for 1-2 query sets, refusal probes, simulate(do=...) recorder. non-trivial: (a) >= 3 nodes and "
+        "enumerated, the empty set as [] / set() / () / frozenset() included) for 1-2 query sets, the empty do-set as "
+        "do=None and do={}, refusal probes, simulate(do=...) recorder. OBJECT REUSE: in 60% of the BN cases ONE model "
+        "and ONE CausalInference object serve every call of the case in sequence (all do-sets, adjustment sets, both "
+        "back-ends) with criterion calls, do() on the engine's model, observational engine queries and direct "
+        "VariableElimination queries on the model interleaved, every answer judged for THAT call, and a final direct "
+        "query on the model; criterion cases use one engine for all (X, Y, Z) of a DAG; do() is also called on the "
+        "result of do(), twice on the same nodes and twice in place. BOUNDARY / EXTREME: node names '' (falsy), '0', "
+        "' ' and integer names 0..6 (BN cases), state names '', False/True, 0.0/0.5, negative and 11-digit integers, "
+        "duplicate entries in do / adjustment lists, query given as tuple, CPD entries 1e-12..1e-6 mixed with O(1) "
+        "entries and exact zeros in 30% of the networks (answers compared with rtol 1e-8, atol 1e-13). non-trivial: (a) >= 3 nodes and "
         ">= 2 edges; (b) some do-variable has a parent and >= 1 interventional query was judged. distinct by digest "
         "of the spec")
 ASSUMPTIONS = [
@@ -70,7 +79,9 @@ ASSUMPTIONS = [
     "proper paths (not through another member of Z)",
     "get_all_backdoor raising ValueError / get_minimal returning None are not judged (no completeness promise)",
     "simulate(do=...): the model and evidence handed to the sampler are judged exactly, the sampler itself is C07",
-    "float64 comparisons at 1e-9",
+    "float64 comparisons with rtol 1e-8 / atol 1e-13 (answers range from 1e-12 to 1)",
+    "direct VariableElimination queries on the engine's model are only used to detect that engine calls changed the "
+    "model object (reported only if a freshly built model answers the same query correctly)",
 ]
 REACH = [
     "pgmpy.base.DAG:DAG.do",
@@ -103,8 +114,53 @@ LABELS = {
     "sN": ["x", "xy", "xyz", "y z", "node4", "N5", "xy6"],
     "w": ["alpha", "beta", "gamma", "delta", "eps", "zeta", "eta"],
     "XY": ["X", "Y", "Z", "U", "M", "W", "V"],
+    "falsy": ["", "0", " ", "a", "00", "_", "b"],       # the empty string is a legal (falsy) node name
+    "int": [0, 1, 2, 3, 4, 5, 6],                        # BN cases only: the criterion API is documented str-only
 }
-KINDS = ["id", "int1", "perm", "str", "str", "mix"]
+KINDS = ["id", "int1", "perm", "str", "str", "mix", "estr", "bool", "float", "bigint"]
+
+
+def _states(rng, v, k, kind):
+    """State names of one variable.  Beyond rv.gen's kinds: 'estr' (one state is the empty string), 'bool', 'float'
+    (non-integer numbers, 0.0 among them), 'bigint' (negative / multi-digit integers)."""
+    if kind == "mix":
+        kind = rng.choice(["id", "int1", "perm", "str", "estr", "bool", "float", "bigint"])
+    if kind == "estr":
+        l = [""] + [f"{v}_s{i}" for i in range(1, k)]
+    elif kind == "bool":
+        l = [False, True][:k] if k <= 2 else [0, 1, 2, 3][:k]
+    elif kind == "float":
+        l = [0.0, 0.5, 1.5, -2.25][:k]
+    elif kind == "bigint":
+        l = rng.sample([-1, 0, 7, 10, 100, 12345678901], k)
+    else:
+        return gen.state_names_for(rng, v, k, kind)
+    if rng.random() < 0.5:
+        rng.shuffle(l)
+    return l
+
+
+TINY = [1e-12, 1e-10, 1e-8, 1e-6]
+
+
+def _tinyfy(rng, bn):
+    """Push some CPD entries down to 1e-12 .. 1e-6 (columns still sum to exactly 1): magnitudes far from O(1), mixed
+    with ordinary entries and exact zeros inside one table."""
+    for v in bn["nodes"]:
+        tab = bn["cpds"][v]["table"]
+        r = len(tab)
+        if r < 2:
+            continue
+        for j in range(len(tab[0])):
+            if rng.random() < 0.5:
+                continue
+            col = [tab[i][j] for i in range(r)]
+            top = max(range(r), key=lambda i: col[i])
+            for i in rng.sample([i for i in range(r) if i != top], rng.randint(1, r - 1)):
+                col[i] = rng.choice(TINY)
+            col[top] = 1.0 - sum(c for i, c in enumerate(col) if i != top)
+            for i in range(r):
+                tab[i][j] = col[i]
 
 # ------------------------------------------------------------------ enumeration / generators
 _ENUM = {}
@@ -143,7 +199,7 @@ def _subsets(items):
 
 
 def _crit_spec(rng, n, edges_idx, source):
-    fam = rng.choice(["s1", "sN", "w", "XY"])
+    fam = rng.choice(["s1", "sN", "w", "XY", "falsy"])
     labels = LABELS[fam][:n]
     rng.shuffle(labels)
     nodes = list(labels)
@@ -220,27 +276,31 @@ def _pick_do_sets(rng, bn, obs, tier):
                     if sorted(q) not in [sorted(z) for z in explicit]:
                         explicit.append(q)
         out.append({"mode": mode, "do": do, "order": list(xs), "queries": queries, "explicit": explicit,
-                    "form": rng.choice(["list", "list", "tuple", "set", "bare"]),
+                    "form": rng.choice(["list", "list", "tuple", "set", "bare", "listdup"]),
                     "inplace_first": rng.random() < 0.5})
     return out
 
 
 def _bn_spec(rng, tier):
     n = rng.choice([3, 4, 4, 5, 5, 6] if tier == "quick" else [3, 4, 5, 5, 6, 6, 7])
-    fam = rng.choice(["s1", "sN", "w", "XY"])
+    fam = rng.choice(["s1", "sN", "w", "XY", "falsy", "int"])
     names = LABELS[fam][:n]
     rng.shuffle(names)
     kind = rng.choice(KINDS)
     zeros = rng.random() < 0.5
+    tiny = rng.random() < 0.3
     shape = rng.choice(["er", "er", "er_dense", "er_dense", "chain", "collider", "collider", "fork", "family",
                         "family", "two_parts", "isolated"])
-    bn = gen.rand_bn_spec(rng, n=n, cards=(1, 2, 2, 2, 2, 3, 3), kind="id" if kind == "mix" else kind,
+    bn = gen.rand_bn_spec(rng, n=n, cards=(1, 1, 2, 2, 2, 2, 3, 3), kind="id",
                           zeros=zeros, names=names, shape=shape, max_parents=3, max_joint=1024 if tier == "quick" else 2048)
-    if kind == "mix":
-        for v in bn["nodes"]:
-            bn["states"][v] = gen.state_names_for(rng, v, bn["card"][v], rng.choice(["id", "int1", "perm", "str"]))
+    for v in bn["nodes"]:
+        bn["states"][v] = _states(rng, v, bn["card"][v], kind)
+    if tiny:
+        _tinyfy(rng, bn)
     bn["kind"] = kind
     bn["zeros"] = zeros
+    bn["tiny"] = tiny
+    bn["names"] = fam
     nodes = bn["nodes"]
     latents = []
     if rng.random() < 0.4:
@@ -249,7 +309,8 @@ def _bn_spec(rng, tier):
     obs = [v for v in nodes if v not in latents]
     dos = _pick_do_sets(rng, bn, obs, tier)
     return {"kind": "bn", "bn": bn, "dos": dos, "build_seed": rng.randrange(10 ** 6), "seed": rng.randrange(10 ** 9),
-            "sim": rng.random() < 0.35, "dagdo": rng.random() < 0.5, "instance_algo": rng.random() < 0.15}
+            "sim": rng.random() < 0.35, "dagdo": rng.random() < 0.5, "instance_algo": rng.random() < 0.15,
+            "shared": rng.random() < 0.6, "redo": rng.random() < 0.6}
 
 
 def gen_case(seed, idx, tier):
@@ -366,6 +427,8 @@ def _mk(items, form, rng=None):
         rng.shuffle(items)
     if form == "list":
         return list(items)
+    if form == "listdup":                      # a duplicate entry
+        return list(items) + list(items[:1])
     if form == "set":
         return set(items)
     if form == "frozenset":
@@ -611,7 +674,56 @@ def check_mutilated(ctx, bn, target, do_nodes, label, prefix="c13:do", **detail)
         viol(ctx, "c13:malformed-result", f"{label}: cannot read model: {type(e).__name__}: {e}", **detail)
 
 
-def check_surgery(ctx, spec, d, rng):
+def _cpd_view(model, v):
+    from rv.build import to_np
+    c = model.get_cpds(v)
+    return list(c.variables), oracle.factor_named(c, to_np)
+
+
+def _check_redo(ctx, spec, xs, xs2, rng):
+    """do() on the result of do(), do() twice on the same nodes, and two in-place do() calls on one model: the second
+    call must again remove exactly the incoming edges of its nodes and leave every other CPD - including the parent-free
+    CPDs made by the first call - untouched, and must not touch the network it was called on."""
+    from rv import build
+    from rv.monitors import fingerprint, strip_order
+    bn = spec["bn"]
+    try:
+        model = build.bayesian_network(bn, rng=random.Random(spec["build_seed"] + 2))
+        r1 = ctx.call(model.do, list(xs))
+        if ctx.failed(r1) or r1 is None:
+            return                                        # judged by the single-call checks
+        fp1 = strip_order(fingerprint(r1))
+        first = {x: _cpd_view(r1, x) for x in xs}
+        for second, tag in ((xs2, "other"), (xs, "same")):
+            label = f"do({list(xs)!r}).do({list(second)!r})"
+            r2 = ctx.call(r1.do, list(second))
+            if ctx.failed(r2):
+                viol(ctx, f"c13:exception:{r2.type}@{r2.where}", f"{label} raised {r2!r}", do=xs, second=second)
+                continue
+            expect(ctx, strip_order(fingerprint(r1)) == fp1, "c13:do-mutates-original",
+                   f"{label}: the second call changed the network it was called on", do=xs, second=second)
+            if r2 is None or r2 is r1:
+                viol(ctx, "c13:do-no-new-model", f"{label} returned {r2!r}", do=xs)
+                continue
+            check_mutilated(ctx, bn, r2, set(xs) | set(second), label, do=xs, second=second)
+            for x in xs:
+                if x not in second:
+                    expect(ctx, _cpd_view(r2, x) == first[x], "c13:do-changed-other-cpd",
+                           f"{label}: parent-free CPD of {x!r} made by the first call was changed by the second",
+                           do=xs, second=second)
+        m2 = build.bayesian_network(bn, rng=random.Random(spec["build_seed"] + 3))
+        label = f"do({list(xs)!r}, inplace=True); do({list(xs2)!r}, inplace=True)"
+        for part in (xs, xs2):
+            r = ctx.call(m2.do, list(part), inplace=True)
+            if ctx.failed(r):
+                viol(ctx, f"c13:exception:{r.type}@{r.where}", f"{label} raised {r!r}", do=xs, second=xs2)
+                return
+        check_mutilated(ctx, bn, m2, set(xs) | set(xs2), label, do=xs, second=xs2)
+    except Exception as e:
+        viol(ctx, "c13:malformed-result", f"do() sequence: cannot read models: {type(e).__name__}: {e}", do=xs)
+
+
+def check_surgery(ctx, spec, d, rng, xs2=None):
     from rv import build
     from rv.monitors import fingerprint, strip_order
     bn = spec["bn"]
@@ -635,6 +747,8 @@ def check_surgery(ctx, spec, d, rng):
                 viol(ctx, "c13:do-no-new-model", f"{label} returned {r!r}", do=xs)
                 continue
             check_mutilated(ctx, bn, r, set(xs), label, do=xs)
+    if spec.get("redo"):
+        _check_redo(ctx, spec, xs, list(xs2 if xs2 is not None else xs), rng)
     if spec["dagdo"]:
         g = _build_graph(bn["nodes"], bn["edges"], bn["latents"], rng, "DAG")
         e0 = set(g.edges())
@@ -653,33 +767,27 @@ def check_surgery(ctx, spec, d, rng):
                 viol(ctx, "c13:malformed-result", f"{label}: {e}", do=xs)
 
 
-def engine_query(ctx, bn, model, do_idx, query, adj, algo):
-    """One CausalInference.query call judged against the truncated factorisation.
-    Returns (status, info); status in ok / exc / scope / names / values / malformed."""
-    from pgmpy.inference import CausalInference
+TOL = dict(atol=1e-13, rtol=1e-8)          # relative: answers range from 1e-12 to 1
+
+
+def _compare(bn, r, do_idx, query):
+    """Judge a returned factor against the truncated factorisation (do_idx = {}: the observational marginal)."""
     from rv.build import to_np
     states = bn["states"]
-    do_named = {x: states[x][s] for x, s in do_idx.items()}
-    kw = {}
-    if adj is not None:
-        kw["adjustment_set"] = adj
-    ci = CausalInference(model)
-    r = ctx.call(ci.query, list(query), do=dict(do_named), inference_algo=algo, show_progress=False, **kw)
-    if ctx.failed(r):
-        return "exc", r
+    query = list(query)
     nodes, J = tf_joint(bn, do_idx)
-    want = oracle.marginal(nodes, J, list(query))
+    want = oracle.marginal(nodes, J, query)
     try:
         if set(r.variables) != set(query) or len(r.variables) != len(query):
-            return "scope", f"result scope {list(r.variables)!r} != query {list(query)!r}"
+            return "scope", f"result scope {list(r.variables)!r} != query {query!r}"
         for v in query:
             if list(r.state_names[v]) != list(states[v]):
                 return "names", f"state names of {v!r} are {r.state_names[v]!r}, model has {states[v]!r}"
         a = oracle.factor_named(r, to_np)
     except Exception as e:
         return "malformed", f"cannot read result: {type(e).__name__}: {e}"
-    b = oracle.array_named(list(query), states, want)
-    diff = oracle.named_close(a, b, **ctx.tol())
+    b = oracle.array_named(query, states, want)
+    diff = oracle.named_close(a, b, **TOL)
     if diff:
         if any(x != x for x in a.values()):
             return "nan", diff
@@ -692,6 +800,26 @@ def engine_query(ctx, bn, model, do_idx, query, adj, algo):
             diff.vec = [float(len(a))]
         return "values", diff
     return "ok", None
+
+
+def engine_query(ctx, bn, model, do_idx, query, adj, algo, ci=None, do_none=False, qform="list"):
+    """One CausalInference.query call judged against the truncated factorisation.
+    Returns (status, info); status in ok / exc / scope / names / values / nan / malformed.
+    ci: engine object to (re)use, else a fresh one; do_none: pass do=None instead of an empty dict."""
+    from pgmpy.inference import CausalInference
+    states = bn["states"]
+    do_named = {x: states[x][s] for x, s in do_idx.items()}
+    kw = {}
+    if adj is not None:
+        kw["adjustment_set"] = adj
+    if ci is None:
+        ci = CausalInference(model)
+    variables = tuple(query) if qform == "tuple" else list(query)
+    r = ctx.call(ci.query, variables, do=None if (do_none and not do_named) else dict(do_named), inference_algo=algo,
+                 show_progress=False, **kw)
+    if ctx.failed(r):
+        return "exc", r
+    return _compare(bn, r, do_idx, query)
 
 
 class _Diff(str):
@@ -748,30 +876,71 @@ def strata(bn, do_idx, Z):
     return bool(np.any(pz <= 0)), bool(np.any((pz > 0) & (pxz <= 0)))
 
 
+class Session:
+    """ONE model object and ONE CausalInference object serving every call of a case (object reuse)."""
+
+    def __init__(self, bn, build_seed):
+        from pgmpy.inference import CausalInference
+        from rv import build
+        self.bn = bn
+        self.model = build.bayesian_network(bn, rng=random.Random(build_seed))
+        self.ci = CausalInference(self.model)
+        self.calls = 0
+
+
+def _rename_bn(bn, m):
+    b2 = copy.deepcopy(bn)
+    b2["nodes"] = [m[v] for v in bn["nodes"]]
+    b2["edges"] = [[m[u], m[v]] for u, v in bn["edges"]]
+    b2["latents"] = [m[v] for v in bn["latents"]]
+    for k in ("card", "states"):
+        b2[k] = {m[v]: copy.deepcopy(bn[k][v]) for v in bn["nodes"]}
+    b2["cpds"] = {m[v]: {"parents": [m[p] for p in bn["cpds"][v]["parents"]],
+                         "table": copy.deepcopy(bn["cpds"][v]["table"])} for v in bn["nodes"]}
+    return b2
+
+
 class Q:
     """One engine call as data: network spec, do assignment (state indices), query, adjustment set (None = default),
-    container form of the adjustment set, back-end."""
+    container form of the adjustment set, back-end; optionally the Session whose objects serve the call."""
 
-    def __init__(self, bn, build_seed, do_idx, query, adj, form, algo):
+    def __init__(self, bn, build_seed, do_idx, query, adj, form, algo, sess=None, do_none=False, qform="list"):
         self.bn, self.build_seed, self.do_idx, self.query = bn, build_seed, dict(do_idx), list(query)
         self.adj, self.form, self.algo = (None if adj is None else list(adj)), form, algo
+        self.sess, self.do_none, self.qform = sess, do_none, qform
 
     def but(self, **k):
-        q = Q(self.bn, self.build_seed, self.do_idx, self.query, self.adj, self.form, self.algo)
+        q = Q(self.bn, self.build_seed, self.do_idx, self.query, self.adj, self.form, self.algo, self.sess,
+              self.do_none, self.qform)
         q.__dict__.update(k)
+        if "bn" in k:
+            q.sess = None                    # a relabelled / perturbed copy of the network needs its own objects
         return q
+
+    def fresh(self):
+        return self.but(sess=None)
+
+    def renamed(self, m):
+        return self.but(bn=_rename_bn(self.bn, m), do_idx={m[x]: s for x, s in self.do_idx.items()},
+                        query=[m[v] for v in self.query], adj=None if self.adj is None else [m[v] for v in self.adj])
 
     def label(self):
         st = self.bn["states"]
         adj = "default" if self.adj is None else f"{self.form}({self.adj!r})"
-        return (f"query({self.query!r}, do={ {x: st[x][s] for x, s in self.do_idx.items()} !r}, "
-                f"adjustment_set={adj}, inference_algo={self.algo!r})")
+        do = "None" if (self.do_none and not self.do_idx) else repr({x: st[x][s] for x, s in self.do_idx.items()})
+        return (f"query({self.query!r}, do={do}, adjustment_set={adj}, inference_algo={self.algo!r})"
+                + (f" [call #{self.sess.calls} on a reused engine]" if self.sess else ""))
 
     def run(self, ctx):
         from rv import build
-        model = build.bayesian_network(self.bn, rng=random.Random(self.build_seed))
         adj = None if self.adj is None else _mk(self.adj, self.form)
-        return engine_query(ctx, self.bn, model, self.do_idx, self.query, adj, self.algo)
+        if self.sess is not None:
+            self.sess.calls += 1
+            return engine_query(ctx, self.bn, self.sess.model, self.do_idx, self.query, adj, self.algo,
+                                ci=self.sess.ci, do_none=self.do_none, qform=self.qform)
+        model = build.bayesian_network(self.bn, rng=random.Random(self.build_seed))
+        return engine_query(ctx, self.bn, model, self.do_idx, self.query, adj, self.algo, do_none=self.do_none,
+                            qform=self.qform)
 
 
 def _describe(q, st, info):
@@ -789,6 +958,26 @@ def assess(ctx, q, O, depth=0):
         return []
     out = []
     bn = q.bn
+    # (0) object reuse: the call was served by an engine / model that had served other calls before.  Neutralised: the
+    #     same call on fresh objects.  (No such defect is known; the key is never listed as known.)
+    if q.sess is not None:
+        q2 = q.fresh()
+        st2, info2 = q2.run(ctx)
+        if _sig(st2, info2) != _sig(st, info):
+            out.append(("c13:answer-depends-on-earlier-calls", _describe(q, st, info)))
+            if st2 == "ok":
+                return out
+        q, st, info = q2, st2, info2
+    # (a0) explicit adjustment set on a network whose node names are not strings: the stratum weight is looked up with
+    #      DiscreteFactor.get_value(**{name: state}), keywords must be strings.  Neutralised: nodes renamed to strings.
+    if q.adj and st == "exc" and any(not isinstance(z, str) for z in q.adj):
+        q2 = q.renamed({v: f"n{v!r}" for v in bn["nodes"]})
+        st2, info2 = q2.run(ctx)
+        if _sig(st2, info2) != _sig(st, info):
+            out.append(("c13:non-string-node-name-adjustment", _describe(q, st, info)))
+            if st2 == "ok":
+                return out
+            q, st, info, bn = q2, st2, info2, q2.bn
     # (a) the caller's container is used as it is: frozenset (what get_all_backdoor_adjustment_sets returns) breaks the
     #     BP back-end, a bare string (documented form) is iterated character-wise / refused.  Neutralised: a list.
     if q.adj is not None and q.form in ("frozenset", "bare"):
@@ -854,19 +1043,113 @@ def assess(ctx, q, O, depth=0):
 KNOWN_SINGLE = ("c13:zero-probability-stratum-nan", "c13:positivity-violated-nan")
 
 
-def judge_query(ctx, spec, O, d, query, adj, form, algo):
-    q = Q(spec["bn"], spec["build_seed"], d["do"], query, adj, form, algo)
+def judge_query(ctx, spec, O, d, query, adj, form, algo, sess=None, do_idx=None, do_none=False, qform="list"):
+    do_idx = d["do"] if do_idx is None else do_idx
+    q = Q(spec["bn"], spec["build_seed"], do_idx, query, adj, form, algo, sess=sess, do_none=do_none, qform=qform)
     found = assess(ctx, q, O)
     if not found:
         ctx.ok()
         return True
     for key, what in found:
-        viol(ctx, key, what, do=d["do"], query=list(query), adj="default" if adj is None else sorted(adj), form=form,
-             algo=algo, mode=d["mode"])
+        viol(ctx, key, what, do=do_idx, query=list(query), adj="default" if adj is None else sorted(adj, key=repr),
+             form=form, algo=algo, mode=d["mode"], reused=bool(sess))
     return False
 
 
-def run_queries(ctx, spec, model, O, d, rng):
+def direct_query(ctx, bn, model, query, key, label, build_seed):
+    """VariableElimination on the MODEL object that the engine has been using: the observational marginal must still
+    be the one of the spec.  A failure is reported only if the same query on a freshly built model is right."""
+    from pgmpy.inference import VariableElimination
+    from rv import build
+    r = ctx.call(lambda: VariableElimination(model).query(list(query), show_progress=False))
+    st, info = ("exc", r) if ctx.failed(r) else _compare(bn, r, {}, query)
+    if st == "ok":
+        ctx.ok()
+        return
+    m2 = build.bayesian_network(bn, rng=random.Random(build_seed))
+    r2 = ctx.call(lambda: VariableElimination(m2).query(list(query), show_progress=False))
+    st2, info2 = ("exc", r2) if ctx.failed(r2) else _compare(bn, r2, {}, query)
+    if st2 == "ok":
+        viol(ctx, key, f"{label}: VariableElimination(model).query({list(query)!r}) on the model object used by the "
+             f"engine: {info!r}; a freshly built model answers correctly")
+    else:
+        ctx.note("direct-query-fails-on-fresh-model-too")       # not this property's business (C01)
+
+
+def interleave(ctx, spec, sess, O, rng):
+    """One unrelated call on the SAME engine / model objects between two judged queries; judged by its own oracle."""
+    bn = sess.bn
+    nodes = bn["nodes"]
+    Ls = set(bn["latents"])
+    obs = [v for v in nodes if v not in Ls]
+    ops = ["ve", "do", "obs"]
+    if all(isinstance(v, str) for v in nodes) and len(obs) >= 2:
+        ops += ["bd", "min", "all", "fd", "adj"]
+    op = rng.choice(ops)
+    ctx.note("interleaved:" + op)
+    ci, model = sess.ci, sess.model
+    if op == "ve":
+        q = rng.sample(nodes, rng.randint(1, min(2, len(nodes))))
+        return direct_query(ctx, bn, model, q, "c13:model-changed-by-engine-calls", "between engine calls",
+                            spec["build_seed"])
+    if op == "obs":
+        q = rng.sample(obs, rng.randint(1, min(2, len(obs))))
+        algo = "bp" if (_connected(bn) and rng.random() < 0.4) else "ve"
+        return judge_query(ctx, spec, O, {"do": {}, "mode": "none"}, q, None, None, algo, sess=sess,
+                           do_none=rng.random() < 0.5)
+    if op == "do":
+        x = rng.choice(nodes)
+        r = ctx.call(model.do, [x])
+        if ctx.failed(r):
+            return viol(ctx, f"c13:exception:{r.type}@{r.where}", f"do([{x!r}]) on the engine's model raised {r!r}")
+        return check_mutilated(ctx, bn, r, {x}, f"do([{x!r}]) on the engine's model")
+    x, y = rng.sample(obs, 2)
+    detail = dict(X=x, Y=y, reused=True)
+    if op in ("bd", "adj"):
+        nd = [v for v in nodes if v != x and v != y and v not in O.de[x]]
+        Z = rng.sample(nd, rng.randint(0, len(nd)))
+        want = O.backdoor(x, y, Z)
+        if op == "bd":
+            r = ctx.call(ci.is_valid_backdoor_adjustment_set, x, y, _mk(Z, rng.choice(["list", "set", "tuple", "listdup"])))
+            key, lab = "c13:backdoor-test-disagrees", f"is_valid_backdoor_adjustment_set({x!r}, {y!r}, {Z!r})"
+        else:
+            r = ctx.call(ci.is_valid_adjustment_set, [x], [y], _mk(Z, rng.choice(["list", "set", "tuple"])))
+            key, lab = "c13:adjustment-test-disagrees", f"is_valid_adjustment_set([{x!r}], [{y!r}], {Z!r})"
+        if ctx.failed(r):
+            return viol(ctx, f"c13:exception:{r.type}@{r.where}", f"{lab} raised {r!r}", **detail)
+        return expect(ctx, bool(r) == want, key, f"{lab} = {r!r} on a reused engine, criterion on paths says {want}",
+                      Z=Z, **detail)
+    if op == "min":
+        r = ctx.call(ci.get_minimal_adjustment_set, x, y)
+        lab = f"get_minimal_adjustment_set({x!r}, {y!r})"
+        if ctx.failed(r):
+            if r.type == "ValueError" and "adjacent" in r.msg and (y, x) in O.eset:
+                return ctx.ok()
+            return viol(ctx, f"c13:exception:{r.type}@{r.where}", f"{lab} raised {r!r}", **detail)
+        if r is None:
+            return
+        try:
+            sset = set(r)
+        except Exception as e:
+            return viol(ctx, "c13:malformed-result", f"{lab}: cannot read {r!r}: {e}", **detail)
+        if sset <= set(nodes) and O.backdoor(x, y, sset):
+            return ctx.ok()
+        return viol(ctx, _minimal_classify(O, x, y, sset, Ls) or "c13:minimal-set-invalid",
+                    f"{lab} = {sorted(sset)!r} fails the back-door criterion on paths", **detail)
+    fn, crit, key = ((ci.get_all_backdoor_adjustment_sets, O.backdoor, "c13:enumerated-backdoor-invalid") if op == "all"
+                     else (ci.get_all_frontdoor_adjustment_sets, O.frontdoor, "c13:enumerated-frontdoor-invalid"))
+    r = ctx.call(fn, x, y)
+    lab = f"{fn.__name__}({x!r}, {y!r})"
+    if ctx.failed(r):
+        if op == "all" and r.type == "ValueError" and "No valid adjustment set" in r.msg:
+            return
+        return viol(ctx, f"c13:exception:{r.type}@{r.where}", f"{lab} raised {r!r}", **detail)
+    for sset in _as_sets(ctx, r, lab, "c13:malformed-result", **detail) or []:
+        expect(ctx, sset <= set(nodes) and crit(x, y, sset), key,
+               f"{lab} lists {sorted(sset)!r} which fails the criterion on paths", **detail)
+
+
+def run_queries(ctx, spec, model, O, d, rng, sess=None):
     from pgmpy.inference import CausalInference, VariableElimination
     bn = spec["bn"]
     nodes, states = bn["nodes"], bn["states"]
@@ -874,6 +1157,7 @@ def run_queries(ctx, spec, model, O, d, rng):
     do_idx = d["do"]
     xs = list(d["order"])
     connected = _connected(bn)
+    str_names = all(isinstance(v, str) for v in nodes)
     upa = []
     for x in xs:
         for p in bn["cpds"][x]["parents"]:
@@ -881,44 +1165,65 @@ def run_queries(ctx, spec, model, O, d, rng):
                 upa.append(p)
     do_named = {x: states[x][s] for x, s in do_idx.items()}
     judged = 0
+    if sess is not None:
+        model = sess.model
+
+    def engine():
+        return sess.ci if sess is not None else CausalInference(model)
+
+    def between():
+        if sess is not None and rng.random() < 0.5:
+            interleave(ctx, spec, sess, O, rng)
+
+    def qform():
+        return "tuple" if rng.random() < 0.2 else "list"
 
     # ---- default adjustment set
     if set(upa) & Ls:
         ctx.feature("refusal:latent-parent")
         obs_rest = [v for v in nodes if v not in xs and v not in upa and v not in Ls]
         if obs_rest:
-            r = ctx.call(CausalInference(model).query, [obs_rest[0]], do=dict(do_named), show_progress=False)
+            r = ctx.call(engine().query, [obs_rest[0]], do=dict(do_named), show_progress=False)
             if ctx.failed(r) and r.type == "ValueError":
                 ctx.note("refused:latent-parent")
                 ctx.ok()
             else:                                   # not refused: then the answer is judged like any other
                 ctx.note("answered:latent-parent")
-                judge_query(ctx, spec, O, d, [obs_rest[0]], None, None, "ve")
+                judge_query(ctx, spec, O, d, [obs_rest[0]], None, None, "ve", sess=sess)
     else:
         algos = ["ve"] + (["bp"] if connected else [])
         for query in d["queries"]:
             for algo in algos:
-                judge_query(ctx, spec, O, d, query, None, None, algo)
+                judge_query(ctx, spec, O, d, query, None, None, algo, sess=sess, qform=qform())
                 judged += 1
+                between()
         if not connected and d["queries"]:
             ctx.feature("bp:disconnected")
-            r = ctx.call(CausalInference(model).query, list(d["queries"][0]), do=dict(do_named), inference_algo="bp",
+            r = ctx.call(engine().query, list(d["queries"][0]), do=dict(do_named), inference_algo="bp",
                          show_progress=False)
             if ctx.failed(r) and r.type == "ValueError":
                 ctx.note("bp:disconnected-refused")
             else:
                 ctx.note("bp:disconnected-answered")
-                judge_query(ctx, spec, O, d, d["queries"][0], None, None, "bp")
+                judge_query(ctx, spec, O, d, d["queries"][0], None, None, "bp", sess=sess)
         if upa and not (set(upa) & set(xs)):
             # outside the quantifier: a query variable among the parents of the do-variables.  Refused on the pinned
             # tree; if an engine answers instead, the answer is judged like any other.
-            r = ctx.call(CausalInference(model).query, [upa[0]], do=dict(do_named), show_progress=False)
+            r = ctx.call(engine().query, [upa[0]], do=dict(do_named), show_progress=False)
             if ctx.failed(r) and r.type == "ValueError":
                 ctx.note("refused:query-in-parents")
                 ctx.ok()
             else:
                 ctx.note("answered:query-in-parents")
-                judge_query(ctx, spec, O, d, [upa[0]], None, None, "ve")
+                judge_query(ctx, spec, O, d, [upa[0]], None, None, "ve", sess=sess)
+
+    # ---- boundary: the empty do-set (do=None and do={}): the observational marginal
+    obs = [v for v in nodes if v not in Ls]
+    if obs:
+        q0 = rng.sample(obs, rng.randint(1, min(2, len(obs))))
+        judge_query(ctx, spec, O, d, q0, None, None, "bp" if (connected and rng.random() < 0.4) else "ve", sess=sess,
+                    do_idx={}, do_none=rng.random() < 0.5, qform=qform())
+        ctx.feature("empty-do")
 
     # ---- every back-door-valid explicit adjustment set (single do)
     if len(xs) == 1:
@@ -938,17 +1243,19 @@ def run_queries(ctx, spec, model, O, d, rng):
                 if strata(bn, do_idx, Z)[1]:
                     ctx.note("explicit:skipped-positivity")      # P(z) > 0, P(x | z) = 0: formula undefined
                     continue
-                forms = ["list", "set", "tuple", "frozenset"] + (["bare"] if len(Z) == 1 else [])
+                forms = ["list", "set", "tuple", "frozenset"] + (["bare"] if len(Z) == 1 and str_names else []) \
+                    + (["listdup"] if Z else [])
                 form = rng.choice(forms)
                 algo = "bp" if (connected and rng.random() < 0.35) else "ve"
-                judge_query(ctx, spec, O, d, query, Z, form, algo)
+                judge_query(ctx, spec, O, d, query, Z, form, algo, sess=sess, qform=qform())
                 judged += 1
-                ctx.feature("explicit-adjustment")
+                ctx.feature("explicit-adjustment" if Z else "explicit-empty-adjustment")
+                between()
         if spec["instance_algo"] and d["queries"] and not (set(upa) & Ls):
             # the documented third form of `inference_algo`: an Inference instance
             ctx.feature("algo-instance")
             inst = VariableElimination(model)
-            st, info = engine_query(ctx, bn, model, do_idx, d["queries"][0], None, inst)
+            st, info = engine_query(ctx, bn, model, do_idx, d["queries"][0], None, inst, ci=engine())
             if st == "ok":
                 ctx.ok()
             elif st == "exc" and info.type == "TypeError" and "not callable" in info.msg:
@@ -997,8 +1304,6 @@ class _SamplerSpy:
 def check_simulate(ctx, spec, model, d):
     bn = spec["bn"]
     states, nodes = bn["states"], bn["nodes"]
-    if bn["kind"] not in ("id", "str"):
-        return            # integer labels other than 0..k-1 hit the samplers' number-as-name defect (C07)
     do_idx = {}
     for x in d["order"]:
         tab = bn["cpds"][x]["table"]
@@ -1049,21 +1354,33 @@ def run_bn(spec, ctx):
     O = Ora(nodes, edges)
     rng = random.Random(spec["seed"])
     ctx.feature(f"kind:{bn['kind']}")
-    if bn["latents"]:
-        ctx.feature("latents")
-    if bn["zeros"]:
-        ctx.feature("zeros")
+    ctx.feature(f"names:{bn.get('names')}")
+    for flag in ("latents", "zeros", "tiny"):
+        if bn.get(flag):
+            ctx.feature(flag)
     judged = 0
     has_parent = False
-    for d in spec["dos"]:
+    # object reuse: in `shared` cases ONE model and ONE CausalInference object serve every call of the case (all
+    # do-sets, adjustment sets, back-ends, interleaved criterion calls / do() / direct queries); else fresh per call
+    sess = Session(bn, spec["build_seed"]) if spec.get("shared") else None
+    if sess is not None:
+        ctx.feature("reused-engine")
+    dos = spec["dos"]
+    for i, d in enumerate(dos):
         ctx.feature(f"do:{d['mode']}")
-        check_surgery(ctx, spec, d, rng)
-        model = build.bayesian_network(bn, rng=random.Random(spec["build_seed"]))
-        judged += run_queries(ctx, spec, model, O, d, rng)
+        if any(bn["card"][x] == 1 for x in d["order"]):
+            ctx.feature("do:single-state-variable")
+        check_surgery(ctx, spec, d, rng, xs2=dos[(i + 1) % len(dos)]["order"])
+        model = None if sess is not None else build.bayesian_network(bn, rng=random.Random(spec["build_seed"]))
+        judged += run_queries(ctx, spec, model, O, d, rng, sess=sess)
         has_parent = has_parent or any(O.pa[x] for x in d["order"])
-    if spec["sim"] and spec["dos"]:
-        model = build.bayesian_network(bn, rng=random.Random(spec["build_seed"]))
-        check_simulate(ctx, spec, model, spec["dos"][-1])
+    if spec["sim"] and dos:
+        model = sess.model if sess is not None else build.bayesian_network(bn, rng=random.Random(spec["build_seed"]))
+        check_simulate(ctx, spec, model, dos[-1])
+    if sess is not None:
+        # after everything the engine did: the model object must still be the network of the spec
+        direct_query(ctx, bn, sess.model, rng.sample(nodes, min(2, len(nodes))), "c13:model-changed-by-engine-calls",
+                     f"after {sess.calls} engine calls", spec["build_seed"])
     ctx.nontrivial = bool(has_parent and judged >= 1)
 
 
